@@ -88,13 +88,35 @@ pub fn launch_target_actor(
     let (target_invalidated_sender, target_invalidated_events) = channel::bounded(1);
     let (target_actor_input_sender, target_actor_input_receiver) =
         channel::bounded(crate::DEFAULT_CHANNEL_CAP);
+    #[cfg(zinoma_verif)]
+    let (target_actor_input_sender, target_actor_input_receiver) =
+        crate::verif::inbox_channel(target_actor_input_sender, target_actor_input_receiver);
 
+    #[cfg(zinoma_verif)]
+    let watch_option = {
+        let sender = target_invalidated_sender.clone();
+        crate::verif::virtual_watch(
+            watch_option,
+            target.id(),
+            Box::new(move || sender.try_send(TargetInvalidatedMessage).is_ok()),
+        )
+    };
     let watcher = match watch_option {
         WatchOption::Enabled => {
             TargetWatcher::new(target.id(), target.input(), &target_invalidated_sender)?
         }
         WatchOption::Disabled => None,
     };
+
+    #[cfg(zinoma_verif)]
+    let termination_events = crate::verif::interpose(
+        target.id(), crate::verif::Slot::Termination, termination_events, |_| "term".to_string());
+    #[cfg(zinoma_verif)]
+    let target_invalidated_events = crate::verif::interpose(
+        target.id(), crate::verif::Slot::Invalidation, target_invalidated_events, |_| "inval".to_string());
+    #[cfg(zinoma_verif)]
+    let target_actor_input_receiver = crate::verif::interpose(
+        target.id(), crate::verif::Slot::Inbox, target_actor_input_receiver, |m| format!("{:?}", m));
 
     let target_actor_helper = TargetActorHelper::new(
         target.metadata(),
@@ -104,17 +126,25 @@ pub fn launch_target_actor(
         target_actor_output_sender,
     );
 
+    #[cfg(zinoma_verif)]
+    let verif_id = target.id().clone();
     let join_handle = match target {
         Target::Build(build_target) => {
             let target_actor = BuildTargetActor::new(build_target, target_actor_helper);
+            #[cfg(zinoma_verif)]
+            let target_actor = crate::verif::Shell::new(&verif_id, Box::pin(target_actor.run()));
             task::spawn(target_actor.run())
         }
         Target::Service(service_target) => {
             let target_actor = ServiceTargetActor::new(service_target, target_actor_helper);
+            #[cfg(zinoma_verif)]
+            let target_actor = crate::verif::Shell::new(&verif_id, Box::pin(target_actor.run()));
             task::spawn(target_actor.run())
         }
         Target::Aggregate(aggregate_target) => {
             let target_actor = AggregateTargetActor::new(aggregate_target, target_actor_helper);
+            #[cfg(zinoma_verif)]
+            let target_actor = crate::verif::Shell::new(&verif_id, Box::pin(target_actor.run()));
             task::spawn(target_actor.run())
         }
     };
